@@ -120,6 +120,9 @@ func (t *Tracker) Sync(layout []lsm.VerifTableInfo, flushed bool) {
 							tb.keys[k] = false
 							tb.seq[k] = g.seq[k]
 						}
+						if g.poisoned[k] {
+							tb.poisoned[k] = true // the folded copy may already be the wrong one
+						}
 						homed = true
 					}
 				}
